@@ -32,7 +32,17 @@ func tok(t token.TokenType, lexeme string, line int) token.Token {
 // orderNode builds node kind `which` over m probes numbered 0..m-1 in reading order and
 // returns the node and m.
 func orderNode(which int, mode int, mask int, env *environment.Environment) (ast.Expr, int) {
-	p := func() ast.Expr { return vpNew(mode, mask, 7) }
+	p := func() ast.Expr {
+		e := vpNew(mode, mask, 7)
+		if orderFaulty {
+			if verifChoice(3) == 2 {
+				// an operand that reports a runtime error and still yields its value: an
+				// assignment to a name that was never declared
+				return &ast.AssignmentStmt{Name: tok(token.IDENTIFIER, "never_declared", 7), Value: e, Line: 7}
+			}
+		}
+		return e
+	}
 	switch which {
 	case 0: // binary
 		ty := verifNondetInt(0, int(token.EOF))
@@ -90,9 +100,15 @@ func orderNode(which int, mode int, mask int, env *environment.Environment) (ast
 	}
 }
 
+var orderFaulty bool
+
 // VH_order: operands are evaluated exactly once, left to right; no operand is evaluated
 // after a diagnostic; the node returns a signal; nothing is printed on error.
 func VH_order(which int, size int, isRepl int) {
+	orderFaulty = isRepl >= 2
+	if isRepl >= 2 {
+		isRepl -= 2
+	}
 	reach := hvReachable()
 	mode := 1
 	if size > 0 {
@@ -168,6 +184,17 @@ func VH_logical(size int, isOr int) {
 	stOnline = false
 	a := vpNew(mode, reach.mask(), 3)
 	b := vpNew(mode, reach.mask(), 3)
+	// the right operand may also be a literal node, carrying what the real lexer stores for
+	// a string or number token
+	rightLiteral := verifChoice(3)
+	var litValueR interface{}
+	if rightLiteral == 1 {
+		litValueR = stringLiteralValue(hvText(size))
+		b = &ast.Literal{Value: litValueR, Line: 3}
+	} else if rightLiteral == 2 {
+		litValueR = verifNondetFloat()
+		b = &ast.Literal{Value: litValueR, Line: 3}
+	}
 	op := tok(token.LOGICAL_AND, "&&", 3)
 	if isOr == 1 {
 		op = tok(token.LOGICAL_OR, "||", 3)
@@ -190,6 +217,11 @@ func VH_logical(size int, isOr int) {
 	verifAssert("logical-no-diagnostic", hvCountStderr() == 0 && !utils.HadRuntimeError)
 	left := vpVals[0][0]
 	right := vpVals[1][0]
+	if rightLiteral != 0 {
+		// what evaluating that literal on its own yields
+		right, _ = NewInterpreter().eval(&ast.Literal{Value: litValueR, Line: 3}, environment.NewEnvironment(), false)
+		vpCalls[1] = 0
+	}
 	lt := specTruthy(left)
 	needRight := lt
 	if isOr == 1 {
@@ -197,7 +229,9 @@ func VH_logical(size int, isOr int) {
 	}
 	verifAssert("left-evaluated-once", vpCalls[0] == 1)
 	if needRight {
-		verifAssert("right-evaluated-when-needed", vpCalls[1] == 1)
+		if rightLiteral == 0 {
+			verifAssert("right-evaluated-when-needed", vpCalls[1] == 1)
+		}
 		verifAssert("result-is-right-operand", hvIdentical(got, right))
 	} else {
 		verifAssert("right-not-evaluated-when-decided", vpCalls[1] == 0)
